@@ -450,7 +450,7 @@ func (c *c11Case) cause(q *c11Query, a, b sqlQRes) string {
 		return ":null-boolean-operand"
 	case c.intxIdx:
 		return ":secondary-index-view-in-tx"
-	case c.negZero:
+	case c.negZero || (q != nil && q.Where.hasNegZero()):
 		return ":negzero-float-key"
 	}
 	return ""
@@ -1016,6 +1016,11 @@ func (c *c11Case) noteValues(d *dml) {
 	}
 	for _, s := range d.Set {
 		note(s.V)
+	}
+	// a -0.0 constant in the WHERE clause of a DML statement selects different rows through an index on the column
+	// (key of -0.0) than through a scan (Compare: -0.0 = +0.0): same root cause R13
+	if d.Where.hasNegZero() {
+		c.negZero = true
 	}
 }
 
